@@ -8,7 +8,7 @@
 (*   rows  = observed output rows: [t, vis, bid, fs, lab, mode, bin, frag]                *)
 (*           t tag read off the reserved styles ("blank"/"deco" = decoration rows),       *)
 (*           vis visible code points of the code part, bid id of the row's bytes,         *)
-(*           fs file ids named (in order), lab label token, frag hunk-fragment token      *)
+(*           fs file ids named (in order), fp ids whose full path is shown, lab label token, frag hunk-fragment token      *)
 (* The monitor consumes every event; a run that breaks a law is recorded in `failed`.     *)
 EXTENDS Obs_Stream, Json, IOUtils, TLC
 
@@ -38,16 +38,22 @@ BlankSource(e, r) == LET ln == e.lines[r.k] IN
 WantFiles(d) == IF d[1] = d[2] THEN <<d[1]>> ELSE IF d[2] = 0 THEN <<d[1]>> ELSE IF d[1] = 0 THEN <<d[2]>>
                 ELSE <<d[1], d[2]>>
 
+\* the file a hunk header names: the section's new path, or the old one for a deleted file
+RECURSIVE SecStart(_, _)
+SecStart(h, k) == IF k = 0 \/ h[k].c = "diff" THEN k ELSE SecStart(h, k - 1)
+HunkFile(h, k) == LET d == WantHeader(h[SecStart(h, k)]) IN IF d[2] = 0 THEN d[1] ELSE d[2]
+
 \* does observed row g satisfy what is wanted (w: a Row of Obs_Stream) for history h?
 RowMatches(h, cfg, w, g) ==
   LET line == h[w.k] IN
-  CASE w.t \in {"raw", "rawopt"} -> g.t \in {"raw", "blank"} /\ g.bid = line.bid
+  CASE w.t \in {"raw", "rawopt"} -> g.bid = line.bid   \* whatever it looks like: the same bytes
     [] w.t = "commit"  -> g.t = "commit" /\ g.vis = line.pay
     [] w.t \in BodyC   -> /\ g.t = w.t \/ (g.t = "blank" /\ WantVis(line, cfg) = <<>>)
                           /\ g.vis = WantVis(line, cfg)
-    [] w.t = "hunkHdr" -> g.t = "hunkHdr" /\ g.frag = w.k
+    [] w.t = "hunkHdr" -> /\ g.t = "hunkHdr" /\ g.frag = w.k
+                          /\ cfg.hhFile => g.fp = <<HunkFile(h, w.k)>>   \* C05/C14: the hunk's own file
     [] w.t = "fileHdr" -> /\ g.t = "fileHdr"
-                          /\ w.d # <<>> => /\ g.fs = WantFiles(w.d)
+                          /\ w.d # <<>> => /\ g.fp = WantFiles(w.d)
                                            /\ g.lab = w.d[3]
                                            /\ g.mode = (w.d[4] = 2)
                                            /\ g.bin = w.d[5]
